@@ -62,7 +62,8 @@ def campaign(progs, variant, work, tag, tmo=10, extra_env=None):
     exe = vlib.build_harness("driver", DRIVER_SRCS, variant)
     nsh = max(1, min(16, len(progs) // 8 or 1))
     if len(progs) > 16 * 400:
-        nsh = (len(progs) + 399) // 400
+        # large campaigns: at most ~400 programs and ~25 000 calls per shard (one trace file / one TLC run each)
+        nsh = max((len(progs) + 399) // 400, (sum(len(p.lines) for p in progs) + 24999) // 25000)
     shards = [[] for _ in range(nsh)]
     for i, p in enumerate(progs):
         shards[i % nsh].append(p)
@@ -219,7 +220,7 @@ def make_programs(pid, tier, rng):
     thorough = tier == "thorough"
     progs = []
     sets = input_sets(rng, thorough)
-    lim = None if thorough else 24
+    lim = 200 if thorough else 24          # queries per section (the generators keep their fixed head and sample the rest)
     for kind in kinds_for(pid):
         for si, (name, S, small) in enumerate(sets):
             # large shapes are expensive for the Re-Pair / FM-index builders: thin them in quick
